@@ -269,6 +269,13 @@ def run_unit(u):
                             recase(k)
                 recase(root)
                 bump('mixed_case_element_names')
+            if forced is None and rng.random() < .08:
+                # an element called iframe in the XHTML namespace: only special when the *document* is HTML
+                fr_ = E('iframe', {}, [E('p', {}, [E('b')])] if rng.random() < .7 else [E('p'), E('b')], prefix='h', ns=trees.NS_XHTML,
+                        nsdecl={'h': trees.NS_XHTML})
+                host_ = rng.choice([root] + [k for k in root.kids if isinstance(k, E) and k.name not in ('style', 'script', 'rt')])
+                host_.kids.append(fr_)
+                bump('xhtml_namespaced_iframe')
             tops, mode = trees.wrap(rng, root)
             how = rng.choice(HOWS)
             for j in range(4):
